@@ -121,6 +121,8 @@ def cases():
             yield ['DW_OP', 62 if a == 8 else 3, v]
     for v in sorted({getattr(dc, k) for k in dir(dc) if k.startswith('DW_CFA_')}):
         yield ['DW_CFA', 62, v]
+    for fn in ('ref1', 'ref2', 'ref4', 'ref8', 'ref_udata', 'ref_addr'):
+        yield ['DW_FORM_ref_unit2', 62, fn]
     # operations whose operand width follows the DWARF format, in a file that mixes a 32-bit-format and a 64-bit-format unit (either order)
     for v in (0x9a, 0xa0, 0xf2, 0x03, 0x91):
         for order in ('32-64', '64-32'):
@@ -324,6 +326,18 @@ def build(desc):
                                      [Die(Abbrev(code0 + 1, TAG['variable'], False, [(AT['location'], F['exprloc'], None)]), [expr]), null()]), null()]))
         units = [unit(32, 1), unit(64, 4)] if order == '32-64' else [unit(64, 1), unit(32, 4)]
         secs = dg.Assembly(units, le=True).assemble()
+        out = {k: secs[k] for k in ('.debug_info', '.debug_abbrev', '.debug_str') if secs.get(k)}
+        data, _ = elfwrap.wrap(out, 64, True, machine=62)
+        return data, '--debug-dump=info', ['.debug_info']
+    if table == 'DW_FORM_ref_unit2':
+        # a reference attribute in a unit that does NOT start at offset 0 of .debug_info (unit-relative forms are printed as section offsets: value + unit offset)
+        def unit(code0, name, with_ref):
+            dp = DP(True, 32, 8, 4)
+            kids = [Die(Abbrev(code0 + 1, TAG['base_type'], False, [(AT['name'], F['string'], None), (AT['byte_size'], F['data1'], None)]), [b'int', 4], label=name + '_int')]
+            if with_ref:
+                kids.append(Die(Abbrev(code0 + 2, TAG['variable'], False, [(AT['name'], F['string'], None), (AT['type'], F[v], None)]), [b'v', ('ref', name + '_int')]))
+            return Unit(dp, Die(Abbrev(code0, TAG['compile_unit'], True, [(AT['name'], F['string'], None)]), [name.encode() + b'.c'], kids + [null()]))
+        secs = dg.Assembly([unit(1, 'first', False), unit(4, 'second', True)], le=True).assemble()
         out = {k: secs[k] for k in ('.debug_info', '.debug_abbrev', '.debug_str') if secs.get(k)}
         data, _ = elfwrap.wrap(out, 64, True, machine=62)
         return data, '--debug-dump=info', ['.debug_info']
